@@ -108,11 +108,19 @@ def tlc_design(wd, tr):
         run(dict(name="many", Members=[1, 2, 3], Starters=[1, 2, 3], E=2, Deadlines=True), "safe", ["ListValid", "Agreement"])
     # Byzantine member 3 + outsider 9, two honest starters
     a = alphabet([3], [9], [1, 2], [1, 2], [1, 2, 3], 4)
-    run(dict(name="b3e3", Members=[1, 2, 3, 4], Starters=[1, 2], Byz=[3], NonMembers=[9], E=3, AdvSet=a, MaxInject=2, Deadlines=True), "safe",
-        ["ListValid", "Agreement"])
     a2 = alphabet([3], [9], [1, 2], [1, 2], [1, 2], 3)
-    run(dict(name="b3e2", Members=[1, 2, 3], Starters=[1, 2], Byz=[3], NonMembers=[9], E=2, AdvSet=a2, MaxInject=2, Deadlines=True), "safe",
-        ["ListValid", "Agreement"])
+    if tr == "quick":
+        ash = alphabet([3], [9], [1, 2], [1, 2], [1, 2, 3], 4, short=True)
+        run(dict(name="b3e3q", Members=[1, 2, 3, 4], Starters=[1, 2], Byz=[3], NonMembers=[9], E=3, AdvSet=ash, MaxInject=2, Deadlines=False), "safe",
+            ["ListValid", "Agreement"])
+        a2sh = alphabet([3], [9], [1, 2], [1, 2], [1, 2], 3, short=True)
+        run(dict(name="b3e2q", Members=[1, 2, 3], Starters=[1, 2], Byz=[3], NonMembers=[9], E=2, AdvSet=a2sh, MaxInject=2, Deadlines=False), "safe",
+            ["ListValid", "Agreement"])
+    else:
+        run(dict(name="b3e3", Members=[1, 2, 3, 4], Starters=[1, 2], Byz=[3], NonMembers=[9], E=3, AdvSet=a, MaxInject=2, Deadlines=True), "safe",
+            ["ListValid", "Agreement"])
+        run(dict(name="b3e2", Members=[1, 2, 3], Starters=[1, 2], Byz=[3], NonMembers=[9], E=2, AdvSet=a2, MaxInject=2, Deadlines=True), "safe",
+            ["ListValid", "Agreement"])
     if tr == "thorough":
         run(dict(name="l33", Members=[1, 2, 3], Starters=[1, 2, 3], E=3), "live", prop="AllDone", timeout=1800)
         run(dict(name="b3e3x", Members=[1, 2, 3, 4], Starters=[1, 2], Byz=[3], NonMembers=[9], E=3, AdvSet=a, MaxInject=3, Deadlines=True), "safe",
@@ -234,7 +242,8 @@ def run_groups(pid, groups, wd, verdict, workers=16):
                 stats["completed_runs"] += 1
             if o["drift"]:
                 stats["drift"] += 1
-                stats["drift_kinds"][o["drift"]] = stats["drift_kinds"].get(o["drift"], 0) + 1
+                kind = o["drift"].split(" @line")[0]
+                stats["drift_kinds"][kind] = stats["drift_kinds"].get(kind, 0) + 1
         for (tag, o) in r.prints:
             if tag != "VIOL":
                 continue
